@@ -100,9 +100,10 @@ ResidualInRange == pc = "done" => InNegPiPi(res)
 \* the residual is the wrapped difference of the ANGLES: unchanged by turns and branch,
 \* i.e. Residual(a + kN, b) = Residual(a, b)
 ResidualCorrect == pc = "done" => res = ResidualDef(a, b)
-\* a group action changes the values, never the angles they denote
+\* a group action changes the values, never the angles they denote (so, by ResidualCorrect in the
+\* "done" states that follow, never the residual)
 GroupKeepsAngles == [][GroupRes => /\ Wrap2Pi(RawA') = Wrap2Pi(RawA) /\ Wrap2Pi(RawB') = Wrap2Pi(RawB)
-                                   /\ ResidualDef(RawA', RawB') = ResidualDef(RawA, RawB)]_vars
+                                   /\ a' = a /\ b' = b]_vars
 \* wrapping twice = wrapping once; a value already in range is returned unchanged
 WrapIdempotent == pc = "posed" =>
    /\ Wrap2Pi(Wrap2Pi(RawA)) = Wrap2Pi(RawA) /\ WrapNegPiPi(WrapNegPiPi(RawA)) = WrapNegPiPi(RawA)
@@ -116,7 +117,7 @@ ResidualAntisymmetric == pc = "posed" =>
    LET r == ResidualDef(RawA, RawB)
    IN IF r = Half THEN ResidualDef(RawB, RawA) = Half ELSE ResidualDef(RawB, RawA) = -r
 \* (+1 generates every rotation: the explored values are closed under it up to the turn bound)
-ResidualRotates == pc = "posed" => \A s \in {1, 7, Half} : ResidualDef(RawA + s, RawB + s) = ResidualDef(RawA, RawB)
+ResidualRotates == pc = "posed" => ResidualDef(RawA + 1, RawB + 1) = ResidualDef(RawA, RawB)
 
 Emit == pc = "done" =>
    PrintT("RES " \o ToJson([alg |-> alg, a |-> a, b |-> b, ra |-> RawA, rb |-> RawB, w1 |-> w1, w2 |-> w2,
